@@ -67,10 +67,10 @@ pub fn run_concurrent(cfg: &Cfg, out: &mut Out) {
         if targeted {
             sch.extend(vec![0; 3]); // recorder 0: start, load tail, claim → parked before publish
             for t in 1..nrec {
-                sch.extend(vec![t; 5]);
+                sch.extend(vec![t; 6]); // start, load tail, claim, publish, gen.applied, (done)
             }
             sch.extend(vec![nt - 1; 40]); // the drain
-            sch.extend(vec![0; 4]);
+            sch.extend(vec![0; 5]);
         }
         let mut cur = r.below(nt);
         for _ in 0..80 {
